@@ -23,6 +23,8 @@ pub mod store {
         include!("/verif/kani/core/src/h/c01_gen.rs");
         include!("/verif/kani/core/src/h/c04_gen.rs");
         include!("/verif/kani/core/src/h/c06.rs");
+        include!("/verif/kani/core/src/h/c09.rs");
+        include!("/verif/kani/core/src/h/c01_merge.rs");
         #[cfg(kani)]
         include!("/verif/kani/core/src/h/probe.rs");
     }
